@@ -699,6 +699,35 @@ pub fn validate(bytes: &[u8]) -> Result<(), String> {
     v.validate_all(bytes).map(|_| ()).map_err(|e| format!("{}", e))
 }
 
+/// Debug text of operators given as wasm-encoder instructions (encode a body, decode it).
+pub fn dbg_of_we(instrs: &[wasm_encoder::Instruction]) -> Vec<String> {
+    use wasm_encoder as we;
+    let mut m = we::Module::new();
+    let mut t = we::TypeSection::new();
+    t.ty().function([], []);
+    m.section(&t);
+    let mut f = we::FunctionSection::new();
+    f.function(0);
+    m.section(&f);
+    let mut c = we::CodeSection::new();
+    let mut func = we::Function::new([]);
+    for i in instrs {
+        func.instruction(i);
+    }
+    func.instruction(&we::Instruction::End);
+    c.function(&func);
+    m.section(&c);
+    let b = m.finish();
+    match decode(&b) {
+        Ok(d) => {
+            let mut ops = d.funcs[0].ops.clone();
+            ops.pop();
+            ops
+        }
+        Err(e) => vec![format!("<undecodable: {}>", e)],
+    }
+}
+
 pub fn print_wat(bytes: &[u8]) -> String {
     wasmprinter::print_bytes(bytes).unwrap_or_else(|e| format!("<unprintable: {}>", e))
 }
